@@ -1,1 +1,202 @@
-import QclibModel.Model.Mcx
+import QclibModel.Proofs.McxLinear
+import QclibModel.Proofs.McxReal
+/-
+  C05 — multi-controlled X gates of qclib/gates/mcx.py, toffoli.py, util.py are exact permutations
+  that restore every borrowed qubit, whatever state it is in.
+  Property theorems only; helper lemmas live in Proofs/Mcx*.lean.  (The majority gate is in
+  Props/C05Majority.lean.)
+
+  Semantics: a state is an amplitude function `ψ : (Nat → Bool) → R`; circuits are equal when they
+  agree on *every* `ψ`, so every computational-basis and every superposed state of the borrowed
+  qubits (and of all spectators) is covered.  `R` is any commutative ring with
+  `c = cs (π/4)`, `s = sn (π/4)` satisfying `c² + s² = 1`, `c² - s² = 2cs` (`Pi8`); the instance
+  `cos(π/8)`, `sin(π/8)` over `ℂ` is `pi8_real` (from Mathlib).
+-/
+namespace Qclib
+open RotSem
+
+variable {Θ R : Type} [CommRing R] [RotSem Θ R]
+
+/-- **C05 (relative-phase Toffoli).** `Toffoli()` of toffoli.py on wires `[c0, c1, t]`
+(`u(-π/4) cx u(-π/4) cx u(π/4) cx u(π/4)`) applies to `t` the matrix
+`c1 ? (c0 ? X : -Z) : I`, on every state. -/
+theorem C05_toffoli_relphase (o : McxAngles Θ) (hp : Pi8 R o) (c0 c1 t : Nat) (h0 : c0 ≠ t)
+    (h1 : c1 ≠ t) (ψ : State R) :
+    sem (toffoli o .none c0 c1 t) ψ
+      = applyFam (fun b => (relTofMat (b c1) (b c0) : Mat2 R)) t ψ :=
+  toffoli_relphase o hp c0 c1 t h0 h1 ψ
+
+/-- **C05 (conjugation by the two halves).** Let `W = sp σ π` be a signed relabelling
+(`(W ψ) b = σ b * ψ (π b)`) denoted by `body` that does not see wire `t`, keeps wire `c0`, and
+flips wire `a` exactly where `P` holds.  Then `Toffoli(cancel='right')(c0, a; t) ; body ;
+Toffoli(cancel='left')(c0, a; t)` equals the relative-phase Toffoli family
+`P ? (c0 ? X : -Z) : I` on `t` followed by `W`. -/
+theorem C05_halves (o : McxAngles Θ) (hp : Pi8 R o) (c0 a t : Nat) (σ : Bits → R) (π : Bits → Bits)
+    (P : Bits → Bool) (body : Circ Θ) (hbody : ∀ ψ : State R, sem body ψ = sp σ π ψ)
+    (hct : c0 ≠ t) (hat : a ≠ t) (hf : FreeAt t σ π) (hc0 : ∀ b, (π b) c0 = b c0)
+    (ha : ∀ b, (π b) a = xor (b a) (P b)) (hP : ∀ b, P (π b) = P b)
+    (hPt : ∀ b v, P (setBit b t v) = P b) (ψ : State R) :
+    sem (toffoli o .right c0 a t ++ body ++ toffoli o .left c0 a t) ψ
+      = sp σ π (applyFam (fun b => (relTofMat (P b) (b c0) : Mat2 R)) t ψ) :=
+  halves o hp c0 a t σ π P body hbody hct hat hf hc0 ha hP hPt ψ
+
+/-- **C05 (dirty-ancilla V-chain, exact mode).** For every number of controls `k ≥ 1`, every number
+of targets `nt ≥ 1`, every `ctrl_state` the code accepts, and every assignment of pairwise
+distinct wires to the `k` controls, `k-2` borrowed qubits and `nt` targets, the circuit
+`McxVchainDirty(k, nt, ctrl_state).definition` (all branches: `k = 1, 2, 3` and the general ladder)
+maps every state `ψ` to `ψ ∘ (flip all targets iff the controls match the pattern)`: it is that
+classical permutation and the identity on every borrowed qubit in any (superposed) state. -/
+theorem C05_vchain (o : McxAngles Θ) (hp : Pi8 R o) (k nt : Nat) (c a t : Nat → Nat)
+    (L : VLayout k nt c a t) (cs : Option (List Bool)) (circ : Circ Θ)
+    (h : vchainW o k nt c a t cs false false = some circ) (ψ : State R) :
+    sem circ ψ = mcxIdeal (patLits k c cs) ((List.range nt).map t) ψ := by
+  simp only [vchainW] at h
+  split at h
+  · exact absurd h (by simp)
+  · rename_i hk
+    split at h
+    · exact absurd h (by simp)
+    · rename_i xs hxs
+      simp only [Option.some.injEq] at h
+      subst h
+      exact ctrl_exact k c cs _ xs _ hxs L.hcc
+        (fun φ => body_exact o hp k nt (by omega) (by omega) c a t L false (Or.inl rfl) φ) ψ
+
+/-- **C05 (V-chain, relative-phase mode, one target, `k ≥ 3`).** The circuit equals the same
+permutation times the explicit diagonal `relSign` of signs `±1` (unit modulus): `-1` exactly where
+the first `k-1` controls match, the last does not, and the target reads 0.  Borrowed qubits are
+restored for every state.  (For `k ≤ 2` the flag has no effect; see
+`C05_vchain_relphase_small`.) -/
+theorem C05_vchain_relphase (o : McxAngles Θ) (hp : Pi8 R o) (k : Nat) (hk : 3 ≤ k)
+    (c a t : Nat → Nat) (L : VLayout k 1 c a t) (cs : Option (List Bool)) (circ : Circ Θ)
+    (h : vchainW o k 1 c a t cs true false = some circ) (ψ : State R) :
+    sem circ ψ = fun b => relSign k c cs (t 0) b * mcxIdeal (patLits k c cs) [t 0] ψ b := by
+  simp only [vchainW] at h
+  split at h
+  · exact absurd h (by simp)
+  · split at h
+    · exact absurd h (by simp)
+    · rename_i xs hxs
+      simp only [Option.some.injEq] at h
+      subst h
+      exact ctrl_relphase k (by omega) c cs (t 0) xs _ hxs L.hcc
+        (fun i hi => L.hct i 0 hi (by omega))
+        (fun φ => body_relphase o hp k 1 hk (by omega) c a t L φ) ψ
+
+/-- With one or two controls the `relative_phase` flag changes nothing: the gate is exact. -/
+theorem C05_vchain_relphase_small (o : McxAngles Θ) (hp : Pi8 R o) (k nt : Nat) (hk : k ≤ 2)
+    (c a t : Nat → Nat) (L : VLayout k nt c a t) (cs : Option (List Bool)) (circ : Circ Θ)
+    (h : vchainW o k nt c a t cs true false = some circ) (ψ : State R) :
+    sem circ ψ = mcxIdeal (patLits k c cs) ((List.range nt).map t) ψ := by
+  simp only [vchainW] at h
+  split at h
+  · exact absurd h (by simp)
+  · rename_i hk0
+    split at h
+    · exact absurd h (by simp)
+    · rename_i xs hxs
+      simp only [Option.some.injEq] at h
+      subst h
+      exact ctrl_exact k c cs _ xs _ hxs L.hcc
+        (fun φ => body_exact o hp k nt (by omega) (by omega) c a t L true (Or.inr hk) φ) ψ
+
+/-- **C05 (single-ancilla LinearMcx).** For every `k ≥ 1` controls (wires `0..k-1`, target `k`,
+dirty ancilla `k+1`) and every accepted `ctrl_state`, `LinearMcx(k, ctrl_state).definition` — the
+hard-coded branches for `k ≤ 5` and the split into two alternating V-chains for `k ≥ 6` — maps
+every state `ψ` to `ψ ∘ (flip the target iff the controls match)`: the ancilla and all controls
+(which the sub-chains borrow) are restored, whatever state they are in. -/
+theorem C05_linear (o : McxAngles Θ) (hp : Pi8 R o) (k : Nat) (cs : Option (List Bool))
+    (circ : Circ Θ) (h : linearMcx o k cs false = some circ) (ψ : State R) :
+    sem circ ψ = mcxIdeal (patLits k (fun i => i) cs) [k] ψ := by
+  simp only [linearMcx] at h
+  split at h
+  · exact absurd h (by simp)
+  · rename_i hk
+    split at h
+    · exact absurd h (by simp)
+    · rename_i xs hxs
+      simp only [Option.some.injEq] at h
+      subst h
+      exact ctrl_exact k (fun i => i) cs [k] xs _ hxs (fun i j _ _ e => e)
+        (fun φ => linear_body o hp k (by omega) φ) ψ
+
+/-- **C05 (`apply_ctrl_state`).** For every pattern string the code accepts: if `body` flips the
+wires `ts` exactly when all `k` controls read 1, then `x`-layer `; body ;` `x`-layer (an `x` on
+control `i` for every `'0'` at position `i` of the *reversed* string) flips `ts` exactly when
+control `i` reads the `i`-th character of the reversed string, for all `i`. -/
+theorem C05_ctrl_state (k : Nat) (c : Nat → Nat) (cs : Option (List Bool)) (ts : List Nat)
+    (xs body : Circ Θ) (hxs : ctrlXs k c cs = some xs)
+    (hcc : ∀ i j, i < k → j < k → c i = c j → i = j)
+    (hbody : ∀ ψ : State R, sem body ψ = mcxIdeal (patLits k c none) ts ψ) (ψ : State R) :
+    sem (xs ++ body ++ xs) ψ = mcxIdeal (patLits k c cs) ts ψ := by
+  refine ctrl_exact k c cs ts xs body hxs hcc (fun φ => ?_) ψ
+  rw [hbody]
+  funext b
+  have := all1_fl k c none (fun i hi => by simp [csBit] at hi) hcc b k (Nat.le_refl k)
+  simp only [csFlips, flipAll_nil] at this
+  simp only [mcxIdeal, condFlipAll, this]
+
+/-! ### Non-vacuity -/
+
+/-- The hypothesis `Pi8` holds for the real gate parameters `π/4, -π/4, 0` over `ℂ`. -/
+example : Pi8 ℂ realAngles := pi8_real
+
+/-- The register layout of the definition (controls, borrowed qubits, targets) is a `VLayout`. -/
+theorem vlayout_std (k nt : Nat) :
+    VLayout k nt (fun i => i) (fun i => k + i) (fun i => k + (k - 2) + i) := by
+  constructor <;> intros <;> omega
+
+/-- The model accepts every `ctrl_state` string of length at most `k` (in particular all `2^k`
+patterns of length `k`), so the theorems above are not vacuous for any of them. -/
+theorem ctrlXs_defined (k : Nat) (c : Nat → Nat) (p : List Bool) (hp : p.length ≤ k) :
+    ∃ xs : Circ Θ, ctrlXs k c (some p) = some xs := by
+  simp only [ctrlXs]
+  rw [if_pos]
+  · exact ⟨_, rfl⟩
+  · rw [List.all_eq_true]
+    intro i hi
+    have := List.mem_range.mp hi
+    rw [List.length_reverse] at this
+    simp only [Bool.or_eq_true, decide_eq_true_eq]
+    right
+    omega
+
+theorem vchainW_defined (o : McxAngles Θ) (k nt : Nat) (hk : 1 ≤ k) (hnt : 1 ≤ nt)
+    (c a t : Nat → Nat) (p : List Bool) (hp : p.length ≤ k) (rp ao : Bool) :
+    ∃ circ, vchainW o k nt c a t (some p) rp ao = some circ := by
+  obtain ⟨xs, hxs⟩ := ctrlXs_defined (Θ := Θ) k c p hp
+  have h0 : ¬ (k = 0 ∨ nt = 0) := by omega
+  simp only [vchainW, if_neg h0, hxs]
+  exact ⟨_, rfl⟩
+
+theorem linearMcx_defined (o : McxAngles Θ) (k : Nat) (hk : 1 ≤ k) (p : List Bool)
+    (hp : p.length ≤ k) (ao : Bool) : ∃ circ, linearMcx o k (some p) ao = some circ := by
+  obtain ⟨xs, hxs⟩ := ctrlXs_defined (Θ := Θ) k (fun i => i) p hp
+  have h0 : ¬ (k = 0) := by omega
+  simp only [linearMcx, if_neg h0, hxs]
+  exact ⟨_, rfl⟩
+
+/-- Seven controls with pattern `1011010`, five borrowed qubits, three targets, over `ℂ` with the
+real angles: the circuit exists and denotes the ideal permutation. -/
+example (ψ : State ℂ) :
+    ∃ circ, vchain realAngles 7 3 (some (parseCs "1011010")) false false = some circ ∧
+      sem circ ψ = mcxIdeal (patLits 7 (fun i => i) (some (parseCs "1011010"))) [12, 13, 14] ψ := by
+  refine ⟨_, rfl, ?_⟩
+  exact C05_vchain realAngles pi8_real 7 3 _ _ _ (vlayout_std 7 3) _ _ rfl ψ
+
+/-- Relative-phase mode, five controls. -/
+example (ψ : State ℂ) :
+    ∃ circ, vchain realAngles 5 1 none true false = some circ ∧
+      sem circ ψ = fun b => relSign 5 (fun i => i) none 8 b
+        * mcxIdeal (patLits 5 (fun i => i) none) [8] ψ b := by
+  refine ⟨_, rfl, ?_⟩
+  exact C05_vchain_relphase realAngles pi8_real 5 (by omega) _ _ _ (vlayout_std 5 1) _ _ rfl ψ
+
+/-- `LinearMcx` with nine controls (split branch) and a pattern. -/
+example (ψ : State ℂ) :
+    ∃ circ, linearMcx realAngles 9 (some (parseCs "110100101")) false = some circ ∧
+      sem circ ψ = mcxIdeal (patLits 9 (fun i => i) (some (parseCs "110100101"))) [9] ψ := by
+  refine ⟨_, rfl, ?_⟩
+  exact C05_linear realAngles pi8_real 9 _ _ rfl ψ
+
+end Qclib
